@@ -1,12 +1,17 @@
 """C15 — a time-series model receives exactly its context window plus selected rows.
 
-correspondence  P: real plan_query on `SELECT … FROM int.tbl ta JOIN mindsdb.tp3 tb WHERE … [LIMIT n]`, abstracted to
-                   (partition WHERE, fetch selects' WHERE trees + limits, output_time_filter, limit step) vs Lean planTS
-                E: the real fetch selects executed by sqlite3 on small tables vs Lean evalSel (ties the row semantics)
-impl-level probe : the property's own oracle on the real code: union of the fetched rows per partition value ==
-                   rows satisfying the user's time condition + a valid choice of the `window` most recent preceding
-                   rows (non-NULL t, partition filters); partition values; output_time_filter; LIMIT step after the
-                   join; rejections raise PlanningException and nothing else; plan glue.
+correspondence  P: real plan_query on statements with one or several time-series joins (`SELECT … FROM int.tbl ta JOIN
+                   mindsdb.tp3 tb WHERE … [LIMIT n]`, sides of UNION [ALL], sub-selects, INSERT/CREATE TABLE sources);
+                   per join, found through the step references: (partition WHERE, fetch selects' WHERE trees + limits,
+                   output_time_filter, limit step) vs Lean planTS with the variant probed by tools/extract/x_c15.py
+                E/F: the real fetch selects executed by sqlite3 on small tables (integers or ISO dates; NULL partition
+                   records with plain / null-safe `$var` substitution) vs Lean evalSel (ties the row semantics)
+impl-level probe : the property's own oracle on the real code, per join: union of the fetched rows per partition record ==
+                   rows satisfying the user's time condition (all sixteen spellings) + a valid choice of the `window`
+                   most recent preceding rows (non-NULL t, partition filters); partition values; output_time_filter up to
+                   operand mirroring; LIMIT step right after the join; LATEST never sent to the data source; no step
+                   shared between joins; rejections (flags, operators, foreign columns incl. names colliding with the
+                   order/group names) raise PlanningException and nothing else.
 """
 import copy, json, os, re, sqlite3, sys, traceback
 from tools.harness import common
@@ -22,14 +27,15 @@ THEOREMS = [_T + n for n in (
     'C15_live_variant', 'C15_reject_where', 'C15_rows_rev', 'C15_rows_spellings', 'C15_rows_stmt',
     'C15_witness_1', 'C15_witness_null', 'C15_full_false')]
 ASSUME = [
-    'plan_timeseries_predictor / ts_utils are hand-modelled (MindsVerif.TS.planTS); tie = plan correspondence stream (exact WHERE trees of every generated select)',
-    'the variant of the WHERE handling (deep validation 6ba8cb8, operand normalisation a0ed2b6) is probed on the live code by tools/extract/x_c15.py (two queries) and pinned by the obligation C15_live_variant; the driver plans with the probed variant',
-    'row semantics of the model (three-valued WHERE, ORDER BY t DESC as a stable sort of an arbitrary physical order, LIMIT) is tied to sqlite3 3.40 by the eval stream; sqlite3 is a reference engine, not part of a theorem',
-    "'$var[col]' is read as substitution of the (non-NULL) partition value under SQL equality; reduce='union' as concatenation",
-    'theorem domain Dom: order column on the left of the time condition, constants of any totally preordered value domain (VOrd: Int, ISO date strings, ...), partition filters g op c / IN / BETWEEN in any AND nesting; outside it only the correspondence and the probe speak',
+    'plan_timeseries_predictor / ts_utils are hand-modelled (MindsVerif.TS.planTS cfg); tie = plan correspondence stream (exact WHERE trees of every generated select, per time-series join of the statement)',
+    'the variant of the WHERE handling (deep validation, operand normalisation) is probed on the live code by tools/extract/x_c15.py (two queries) and pinned by the obligation C15_live_variant; the driver plans with the probed variant',
+    'row semantics of the model (three-valued WHERE, ORDER BY t DESC as a stable sort of an arbitrary physical order, LIMIT) is tied to sqlite3 3.40 by the eval stream; sqlite3 is a reference engine, not part of a theorem; the specification predicate restSel evaluates the partition filters with the same evaluator',
+    "'$var[col]' is read as substitution of the partition record value; the row theorems need envOk: no NULL in the record, or a null-safe executor (C15_rows_nullsafe); with plain SQL equality a record with a NULL receives no rows (C15_null_partition_empty). reduce='union' is read as concatenation",
+    'theorem domain: one time condition in any of the sixteen spellings (C15_rows_spellings; C15_rows: the nine column-first classes for every variant) over any totally preordered value domain (VOrd: Int, ISO date strings, ...), partition filters g op c / IN / BETWEEN in any AND nesting; outside it (IN / >= LATEST / BETWEEN … LATEST on the order column, column-to-column comparisons) only the correspondence and the crash probe speak',
+    'for an exact time (`t = c`) the specification is "the window most recent rows up to c" (the parenthesis of the property text): TC.cond (.eq c) = false',
     'the driver instantiates the value domain with Int; ISO date strings of the generated queries/tables are mapped to day numbers (order isomorphism) before they reach the model',
-    'NULL partition records: the probe fills `col = $var[col]` null-safely (col IS NULL), which is what C15_rows_nullsafe assumes of the executor; with plain SQL equality such a partition receives no rows (C15_null_partition_empty, eval stream E lines)',
-    'plan glue (FROM table, SELECT *, integration, step wiring, join side) is checked by the probe, not proved',
+    'statements with several time-series joins: C15_rows_stmt states the per-join property for a list of joins planned one by one; that the real planner gives every join its own partition step and selects is checked by the probe (step references), not proved',
+    'plan glue (FROM table, SELECT *, integration, step wiring, join side) is checked by the probe, not proved; adapt_dbt_query and the ambiguity check of join identifiers are not modelled (the probe checks that an unqualified column raises PlanningException)',
 ]
 
 TIME = 't'
@@ -951,10 +957,12 @@ def run(chk):
         chk.oblige('corr:eval', 'correspondence', False, 'driver failed: %s' % e)
     for case, line, err in pmeta[:2] + pmeta[-2:]:
         chk.samples.append(dict(sql=case['sql'], nG=case['nG'], window=case['window'], impl=line[:400]))
-    chk.samples.append(dict(theorem='C15_rows: ∀ m q tc, plain q → Dom m.nG tc q.whereC → ∃ pl, planTS m q = ok pl ∧ ∀ p T, '
-                            '∃ L, WindowSpec m.window p m.nG tc q.whereC T L ∧ (fetched p T pl.selects).Perm (condRows … T ++ L)'))
-    chk.samples.append(dict(theorem='C15_otf_partial / C15_limit / C15_reject_where_partial / C15_no_crash: '
-                            'T15.2, T15.3 outside the witnessed classes (t = c; hidden columns); LIMIT and crash-freeness unconditional'))
+    chk.samples.append(dict(theorem='C15_rows: ∀ cfg m q tc, plain q → Dom m.nG tc q.whereC → ∃ pl, planTS cfg m q = ok pl ∧ ∀ e T, '
+                            'envOk e m.nG → ∃ L, WindowSpec m.window e m.nG tc q.whereC T L ∧ (fetched e T pl.selects).Perm (condRows e m.nG tc q.whereC T ++ L)'))
+    chk.samples.append(dict(theorem='C15_rows_spellings: ∀ m q tl w, q.whereC = some w → plain q → tcTree m.nG tl.toW w → ∃ pl, planTS Cfg.pinned m q = ok pl ∧ '
+                            '∀ e T, envOk e m.nG → ∃ L, WindowSpecL m.window e m.nG tl w T L ∧ (fetched e T pl.selects).Perm (condRowsL e m.nG tl w T ++ L)'))
+    chk.samples.append(dict(theorem='C15_reject_where: q.whereC = some w → w.isOperation → (opsOk w = false ∨ colsOk m.nG w = false ∨ andOk w = false) → '
+                            'planTS Cfg.pinned m q = planning;  C15_no_crash: planTS cfg m q ≠ crash;  C15_otf_partial: output filter = user condition except `t = c` (KF-C15-1)'))
     return chk.finish(assumptions=ASSUME)
 
 
